@@ -91,11 +91,14 @@ pub struct Dfs {
     pub executions: u64,
     pub choice_points: u64,
     pub max_depth: usize,
+    /// number of alternatives skipped because they would exceed the bound; 0 after the tree is
+    /// exhausted means the exploration is complete for every bound
+    pub pruned_by_bound: u64,
 }
 
 impl Dfs {
     pub fn new(bound: u32) -> Dfs {
-        Dfs { bound, next: Some(vec![]), executions: 0, choice_points: 0, max_depth: 0 }
+        Dfs { bound, next: Some(vec![]), executions: 0, choice_points: 0, max_depth: 0, pruned_by_bound: 0 }
     }
 
     /// The prefix to replay in the next execution, or None when the tree is exhausted.
@@ -127,7 +130,10 @@ impl Dfs {
             let p = &ctx.log[i];
             let mut alt = p.chosen + 1;
             while alt < p.n {
-                if p.cum + p.costs[alt] <= self.bound {
+                if p.cum.saturating_add(p.costs[alt]) > self.bound {
+                    self.pruned_by_bound += 1;
+                }
+                if p.cum.saturating_add(p.costs[alt]) <= self.bound {
                     let mut np: Vec<usize> = ctx.log[..i].iter().map(|q| q.chosen).collect();
                     np.push(alt);
                     self.next = Some(np);
